@@ -486,8 +486,11 @@ def stepWriter (s : State) : Label → Option State
   | .wCheck w =>
     match s.writers.lookup w with
     | some .init =>
-      if s.done then some { s with writers := delT s.writers w }
-      else some { s with writers := setT s.writers w .select }
+      -- the opening "is the client closed?" check. Whether it reads `done` under the mutex or the
+      -- context without it, finding the client closed is the same as entering the select and
+      -- leaving through the cancelled context at once (`wCancel`; Close cancels before it sets
+      -- `done`), so the check itself is just the move to the select.
+      some { s with writers := setT s.writers w .select }
     | _ => none
   | .wRecv w r =>
     match s.writers.lookup w with
